@@ -437,9 +437,8 @@ def wl_quotient(ctx, rng, case):
         except QuotientFilterError:
             pass
     for h in rng.sample(sorted(S), min(len(S), rng.randint(0, 3))):
-        if len(S) < f.size:
-            f.remove_alt(h)
-            S.discard(h)
+        f.remove_alt(h)
+        S.discard(h)
     before = state_qf(f)
     other = P.QuotientFilter(quotient=q + 1, auto_expand=True)
     done = []
